@@ -82,6 +82,17 @@ def followup(stage, lines, model, checked, release, tier, rng):
                     same = (K.frame(msg, ctx, ph) == K.frame(msg, c2, p2))
                     st["ver"].append((v, same))
                     L.append(v)
+                # the representative itself (or its tail) offered as the message, under no / empty context and in pre-hash
+                # mode: an API that also tries the unframed bytes would accept here; and the bare message at the raw level
+                if msg == b"bc" or (tier == "thorough" and msg == b"c"):
+                    F = K.frame(msg, ctx, ph)
+                    for m2 in (F, F[1:], F[2:]):
+                        for (c2, p2) in ((None, None), (b"", None), (None, "sha256")):
+                            if K.frame(m2, c2, p2) == F:
+                                continue
+                            v = K.api_verify(s, st["pk"], m2, sig, c2) if p2 is None else K.api_prehash_verify(s, st["pk"], m2, sig, c2, p2)
+                            st["ver"].append((v, False)); L.append(v)
+                    v = K.verify_raw(s, sig, msg, st["pk"]); st["ver"].append((v, False)); L.append(v)
                 # same concatenation ctx||M, different split
                 if ctx == b"ab" and msg == b"c" and ph is None:
                     v = K.api_verify(s, st["pk"], b"bc", sig, b"a"); st["ver"].append((v, False)); L.append(v)
